@@ -16,27 +16,35 @@ open Flatland.Tree Flatland.PyList Flatland.C10 Flatland.C10.Spec
 /-! ### helpers -/
 
 theorem hdr_parts {a b : Node} (h : a.hdr = b.hdr) :
-    a.id = b.id ∧ a.parent = b.parent ∧ a.sch = b.sch ∧ a.key = b.key := by
+    a.id = b.id ∧ a.parent = b.parent ∧ a.sch = b.sch ∧ a.key = b.key ∧
+      a.ni.optOv = b.ni.optOv ∧ a.ni.nameOv = b.ni.nameOv := by
   simp only [Node.hdr, Prod.mk.injEq] at h; exact h
 
-theorem hdr_eq_parts {c : Node} {id : Nat} {p : Option Nat} {s : Schema} {k : Str} (h : c.hdr = (id, p, s, k)) :
-    c.id = id ∧ c.parent = p ∧ c.sch = s ∧ c.key = k := by
+theorem hdr_eq_parts {c : Node} {id : Nat} {p : Option Nat} {s : Schema} {k : Str} {o : Option Bool} {nm : Option Str}
+    (h : c.hdr = (id, p, s, k, o, nm)) :
+    c.id = id ∧ c.parent = p ∧ c.sch = s ∧ c.key = k ∧ c.ni.optOv = o ∧ c.ni.nameOv = nm := by
   simp only [Node.hdr, Prod.mk.injEq] at h; exact h
 
 def KidOK (pid : Nat) (subs : List Schema) (c : Node) : Prop :=
-  c.parent = some pid ∧ c.sch ∈ subs ∧ c.key = c.sch.key
+  c.parent = some pid ∧ c.sch ∈ subs ∧ c.key = c.sch.key ∧ c.ni.optOv = none ∧ c.ni.nameOv = none
 
 theorem kidOK_of_hdr {pid : Nat} {subs : List Schema} {a b : Node} (h : a.hdr = b.hdr) (hb : KidOK pid subs b) :
     KidOK pid subs a := by
-  obtain ⟨_, hp, hs, hk⟩ := hdr_parts h
+  obtain ⟨_, hp, hs, hk, ho, hn⟩ := hdr_parts h
   unfold KidOK at *
-  rw [hp, hs, hk]; exact hb
+  rw [hp, hs, hk, ho, hn]; exact hb
 
 theorem kidOK_fresh {pid : Nat} {subs : List Schema} {c : Node} {id : Nat} {f : Schema}
-    (h : c.hdr = (id, some pid, f, f.key)) (hf : f ∈ subs) : KidOK pid subs c := by
-  simp only [Node.hdr, Prod.mk.injEq] at h
-  obtain ⟨_, hp, hs, hk⟩ := h
-  exact ⟨hp, by rw [hs]; exact hf, by rw [hk, hs]⟩
+    (h : c.hdr = (id, some pid, f, f.key, none, none)) (hf : f ∈ subs) : KidOK pid subs c := by
+  obtain ⟨_, hp, hs, hk, ho, hn⟩ := hdr_eq_parts h
+  exact ⟨hp, by rw [hs]; exact hf, by rw [hk, hs], ho, hn⟩
+
+theorem hdr_withParent {x : Node} {id : Nat} {p : Option Nat} {s : Schema} {k : Str} {o : Option Bool} {nm : Option Str}
+    (h : x.hdr = (id, p, s, k, o, nm)) (q : Option Nat) : (x.withParent q).hdr = (id, q, s, k, o, nm) := by
+  cases x with
+  | mk i sc ks =>
+    simp only [Node.hdr, Node.withParent, Node.id, Node.ni, Node.parent, Node.sch, Node.key, Node.kids, Prod.mk.injEq] at *
+    exact ⟨h.1, trivial, h.2.2⟩
 
 def keep (b : Bool) (f : Schema) : Bool := !(b && f.info.optional)
 
@@ -58,7 +66,7 @@ theorem blankFields_ok (subs' subs : List Schema) (pid : Nat) (b : Bool) (next :
       simp only [hc', Bool.false_eq_true, if_false]
       have hk : keep b f = true := by simp [keep, hc']
       have hb := blank_hdr f (some pid) f.key next
-      obtain ⟨_, _, _, hkey⟩ := hdr_eq_parts hb
+      obtain ⟨_, _, _, hkey, _, _⟩ := hdr_eq_parts hb
       refine ⟨?_, ?_⟩
       · intro c hcm
         rcases List.mem_cons.mp hcm with h | h
@@ -163,7 +171,7 @@ theorem setPairs_ok (pid : Nat) (subs : List Schema) (kvs : List (Str × Raw)) :
       | some child =>
         obtain ⟨hcm, hck⟩ := findKid_some hc
         have hh := setNode_hdr child v none next
-        have hnk : (setNode child v none next).node.key = k := by rw [(hdr_parts hh).2.2.2, hck]
+        have hnk : (setNode child v none next).node.key = k := by rw [(hdr_parts hh).2.2.2.1, hck]
         have hrk := replaceKid_keys kids k _ hnk
         have hrok : ∀ c ∈ replaceKid kids k (setNode child v none next).node, KidOK pid subs c := by
           intro c hcm'
@@ -182,18 +190,13 @@ theorem setPairs_ok (pid : Nat) (subs : List Schema) (kvs : List (Str × Raw)) :
       | none =>
         have hnot := findKid_none hc
         have hb := blank_hdr f none k next
-        have hel : ((blank f none k next).1.withParent (some pid)).hdr = (next, some pid, f, f.key) := by
-          obtain ⟨h1, _, h3, h4⟩ := hdr_eq_parts hb
-          cases hbl : (blank f none k next).1 with
-          | mk i s ks =>
-            rw [hbl] at h1 h3 h4
-            simp only [Node.withParent, Node.hdr, Node.id, Node.ni, Node.parent, Node.sch, Node.key] at *
-            rw [h1, h3, h4, hfk]
+        have hel : ((blank f none k next).1.withParent (some pid)).hdr = (next, some pid, f, f.key, none, none) := by
+          rw [hdr_withParent hb, hfk]
         have hh := setNode_hdr ((blank f none k next).1.withParent (some pid)) v none (blank f none k next).2
         have hnew : KidOK pid subs (setNode ((blank f none k next).1.withParent (some pid)) v none (blank f none k next).2).node :=
           kidOK_of_hdr hh (kidOK_fresh hel hfm)
         have hnk : (setNode ((blank f none k next).1.withParent (some pid)) v none (blank f none k next).2).node.key = k := by
-          rw [(hdr_parts hh).2.2.2, (hdr_eq_parts hel).2.2.2]; exact hfk
+          rw [(hdr_parts hh).2.2.2.1, (hdr_eq_parts hel).2.2.2.1]; exact hfk
         have hok' : ∀ c ∈ kids ++ [(setNode ((blank f none k next).1.withParent (some pid)) v none (blank f none k next).2).node],
             KidOK pid subs c := by
           intro c hcm
@@ -308,7 +311,7 @@ theorem defaultFields_ok (subs' subs : List Schema) (pid : Nat) (b : Bool) (next
       simp only [hc', Bool.false_eq_true, if_false]
       have hk : keep b f = true := by simp [keep, hc']
       have hb := fromDefaults_hdr f (some pid) f.key next
-      obtain ⟨_, _, _, hkey⟩ := hdr_eq_parts hb
+      obtain ⟨_, _, _, hkey, _, _⟩ := hdr_eq_parts hb
       split
       · by_cases hb' : b = true
         · simp only [hb', if_true]
@@ -321,7 +324,7 @@ theorem defaultFields_ok (subs' subs : List Schema) (pid : Nat) (b : Bool) (next
             rcases List.mem_cons.mp hcm with h | h
             · rw [h]; exact kidOK_fresh hbk (hsub f (by simp))
             · exact hbl.1 c h
-          · simp only [List.map_cons, List.filter_cons, hk, if_true, hbl.2, (hdr_eq_parts hbk).2.2.2]
+          · simp only [List.map_cons, List.filter_cons, hk, if_true, hbl.2, (hdr_eq_parts hbk).2.2.2.1]
         · have hbf : b = false := by simpa using hb'
           subst hbf
           simp only [Bool.false_eq_true, if_false]
@@ -353,7 +356,7 @@ theorem setDefaultKids_hdr (kids : List Node) (next : Nat) :
 
 theorem KI_of_map_hdr {n : Node} {a b : List Node} (hab : a.map Node.hdr = b.map Node.hdr) (h : KI n b) : KI n a := by
   have hkeys : a.map Node.key = b.map Node.key := by
-    have := congrArg (List.map (fun t : Nat × Option Nat × Schema × Str => t.2.2.2)) hab
+    have := congrArg (List.map (fun t : Nat × Option Nat × Schema × Str × Option Bool × Option Str => t.2.2.2.1)) hab
     simpa [List.map_map, Function.comp_def, Node.hdr] using this
   refine ⟨?_, fun hd => hkeys ▸ h.dense hd, fun hs hm f hf ho => hkeys ▸ h.required hs hm f hf ho⟩
   intro c hc
@@ -406,15 +409,18 @@ theorem setChild_hdr (child : Node) (a : Arg) (next : Nat) : (setChild child a n
     field class itself — not of a renamed subclass (see `C10_Full` below) -/
 def ArgExact (n : Node) (k : Str) (a : Arg) : Prop :=
   match a with
-  | .elem e => ∀ f, fieldFor n.sch.subs k = some f → isInstance e f = true → e.sch = f
+  | .elem e => ∀ f, fieldFor n.sch.subs k = some f → isInstance e f = true →
+      e.sch = f ∧ e.ni.optOv = none ∧ e.ni.nameOv = none
   | .plain _ => True
 
 theorem kidOK_placed {n : Node} {e : Node} {f : Schema} {key : Str} (hf : f ∈ n.sch.subs) (hfk : f.key = key)
-    (hes : e.sch = f) : KidOK n.id n.sch.subs ((e.withParent (some n.id)).withKey key) := by
+    (hes : e.sch = f ∧ e.ni.optOv = none ∧ e.ni.nameOv = none) :
+    KidOK n.id n.sch.subs ((e.withParent (some n.id)).withKey key) := by
   cases e with
   | mk i s ks =>
+    obtain ⟨hes, ho, hn⟩ := hes
     simp only [Node.sch] at hes
-    refine ⟨rfl, ?_, ?_⟩
+    refine ⟨rfl, ?_, ?_, ho, hn⟩
     · show s ∈ n.sch.subs; rw [hes]; exact hf
     · show key = s.key; rw [hes, hfk]
 
@@ -438,7 +444,7 @@ theorem KI.append {n : Node} (h : KI n n.kids) {new : Node} (hnot : new.key ∉ 
     · exact h.ok c h1
     · simp only [List.mem_singleton] at h1; rw [h1]; exact hok
   · intro hall
-    exact absurd (hok.2.2 ▸ hall new.sch hok.2.1) hnot
+    exact absurd (hok.2.2.1 ▸ hall new.sch hok.2.1) hnot
 
 theorem kids_withKids (n : Node) (ks : List Node) : (n.withKids ks).kids = ks := by cases n; rfl
 
@@ -470,10 +476,10 @@ theorem mapSetItem_ok (n : Node) (h : KI n n.kids) (key : Str) (a : Arg) (ha : A
               refine ⟨rfl, ?_⟩
               rw [kids_withKids]
               have hb := blank_hdr f (some n.id) key next
-              have hb' : ((blank f (some n.id) key next).1.withScalar v u).hdr = (next, some n.id, f, f.key) := by
+              have hb' : ((blank f (some n.id) key next).1.withScalar v u).hdr = (next, some n.id, f, f.key, none, none) := by
                 rw [withScalar_hdr, hb, hfk]
               refine h.append ?_ (kidOK_fresh hb' hfm)
-              rw [(hdr_eq_parts hb').2.2.2, hfk]; exact hnot
+              rw [(hdr_eq_parts hb').2.2.2.1, hfk]; exact hnot
             · exact ⟨rfl, h⟩
         | plain r =>
           simp only
@@ -483,14 +489,14 @@ theorem mapSetItem_ok (n : Node) (h : KI n n.kids) (key : Str) (a : Arg) (ha : A
             refine ⟨rfl, ?_⟩
             rw [kids_withKids]
             have hh := construct_hdr f r (some n.id) key next el (by rw [hcon])
-            have hh' : el.hdr = (next, some n.id, f, f.key) := by rw [hh, hfk]
+            have hh' : el.hdr = (next, some n.id, f, f.key, none, none) := by rw [hh, hfk]
             refine h.append ?_ (kidOK_fresh hh' hfm)
-            rw [(hdr_eq_parts hh').2.2.2, hfk]; exact hnot
+            rw [(hdr_eq_parts hh').2.2.2.1, hfk]; exact hnot
     | some child =>
       obtain ⟨hcm, hck⟩ := findKid_some hc
       have hset : ∀ (s : SetR), s.node.hdr = child.hdr → KI n (replaceKid n.kids key s.node) := by
         intro s hs
-        exact h.replace (by rw [(hdr_parts hs).2.2.2, hck]) (kidOK_of_hdr hs (h.ok child hcm))
+        exact h.replace (by rw [(hdr_parts hs).2.2.2.1, hck]) (kidOK_of_hdr hs (h.ok child hcm))
       simp only
       split
       · exact ⟨rfl, h⟩
@@ -510,7 +516,7 @@ theorem mapSetItem_ok (n : Node) (h : KI n n.kids) (key : Str) (a : Arg) (ha : A
       obtain ⟨hcm, hck⟩ := findKid_some hc
       have hset : ∀ (s : SetR), s.node.hdr = child.hdr → KI n (replaceKid n.kids key s.node) := by
         intro s hs
-        exact h.replace (by rw [(hdr_parts hs).2.2.2, hck]) (kidOK_of_hdr hs (h.ok child hcm))
+        exact h.replace (by rw [(hdr_parts hs).2.2.2.1, hck]) (kidOK_of_hdr hs (h.ok child hcm))
       dsimp only
       split <;> refine ⟨rfl, ?_⟩ <;> (try rw [excOut]) <;> rw [kids_withKids] <;> exact hset _ (setChild_hdr _ _ _)
 
@@ -585,9 +591,10 @@ theorem KI.erase {n : Node} (h : KI n n.kids) (hs : n.kind = .sparse) (hnd : Fie
     simp only [Option.some.injEq] at hko
     obtain ⟨hcm, hck⟩ := findKid_some hc
     have hok := h.ok c hcm
-    have : c.sch = f := field_unique hnd hok.2.1 hf (by rw [← hok.2.2, hck, hfk])
-    rw [this, ho] at hko
-    cases hko
+    have : c.sch = f := field_unique hnd hok.2.1 hf (by rw [← hok.2.2.1, hck, hfk])
+    unfold Node.optional at hko
+    rw [hok.2.2.2.1, this] at hko
+    simp [ho] at hko
 
 
 theorem argExact_congr {n r : Node} (h : r.hdr = n.hdr) (k : Str) (a : Arg) : ArgExact r k a ↔ ArgExact n k a := by
@@ -677,7 +684,7 @@ theorem mapStep_ok (n : Node) (hk : MapKind n) (hnd : FieldsNodup n) (h : KI n n
             unfold keyOptional at hreq ⊢
             rw [hc] at hreq ⊢
             simp only [Option.some.injEq]
-            cases hb : c.sch.info.optional
+            cases hb : c.optional
             · simp [hb] at hreq
             · rfl
           · exact ⟨rfl, h⟩
@@ -724,7 +731,7 @@ theorem mapStep_ok (n : Node) (hk : MapKind n) (hnd : FieldsNodup n) (h : KI n n
           · exact ⟨rfl, h⟩
           · have hh := setNode_hdr child d none next
             have hr : KI n (replaceKid n.kids k (setNode child d none next).node) :=
-              h.replace (by rw [(hdr_parts hh).2.2.2, hck]) (kidOK_of_hdr hh (h.ok child hcm))
+              h.replace (by rw [(hdr_parts hh).2.2.2.1, hck]) (kidOK_of_hdr hh (h.ok child hcm))
             split <;> refine ⟨rfl, ?_⟩ <;> (try rw [excOut]) <;> rw [kids_withKids] <;> exact hr
         · rename_i hc
           have hnot := findKid_none hc
@@ -733,17 +740,12 @@ theorem mapStep_ok (n : Node) (hk : MapKind n) (hnd : FieldsNodup n) (h : KI n n
           · rename_i f hf
             obtain ⟨hfm, hfk⟩ := fieldFor_some hf
             have hb := blank_hdr f none k next
-            have hel : ((blank f none k next).1.withParent (some n.id)).hdr = (next, some n.id, f, f.key) := by
-              obtain ⟨h1, _, h3, h4⟩ := hdr_eq_parts hb
-              cases hbl : (blank f none k next).1 with
-              | mk i s ks =>
-                rw [hbl] at h1 h3 h4
-                simp only [Node.withParent, Node.hdr, Node.id, Node.ni, Node.parent, Node.sch, Node.key] at *
-                rw [h1, h3, h4, hfk]
+            have hel : ((blank f none k next).1.withParent (some n.id)).hdr = (next, some n.id, f, f.key, none, none) := by
+              rw [hdr_withParent hb, hfk]
             have hh := setNode_hdr ((blank f none k next).1.withParent (some n.id)) d none (blank f none k next).2
             have hnew := kidOK_of_hdr hh (kidOK_fresh hel hfm)
             have hnk : (setNode ((blank f none k next).1.withParent (some n.id)) d none (blank f none k next).2).node.key = k := by
-              rw [(hdr_parts hh).2.2.2, (hdr_eq_parts hel).2.2.2]; exact hfk
+              rw [(hdr_parts hh).2.2.2.1, (hdr_eq_parts hel).2.2.2.1]; exact hfk
             have hr := h.append (by rw [hnk]; exact hnot) hnew
             split <;> refine ⟨rfl, ?_⟩ <;> (try rw [excOut]) <;> rw [kids_withKids] <;> exact hr
   | get k => dsimp only; split <;> exact ⟨rfl, h⟩
@@ -773,7 +775,8 @@ theorem sch_of_step (n : Node) (hk : MapKind n) (hnd : FieldsNodup n) (h : MapIn
 
 /-- the hypothesis on Element arguments, stated against the (constant) class of the mapping -/
 def ArgExactS (s : Schema) (k : Str) : Arg → Prop
-  | .elem e => ∀ f, fieldFor s.subs k = some f → isInstance e f = true → e.sch = f
+  | .elem e => ∀ f, fieldFor s.subs k = some f → isInstance e f = true →
+      e.sch = f ∧ e.ni.optOv = none ∧ e.ni.nameOv = none
   | .plain _ => True
 
 def OpExactS (s : Schema) : MapOp → Prop
@@ -836,10 +839,11 @@ theorem mapinv_init (s : Schema) (hk : s.kind = .dict ∨ s.kind = .sparse) (par
 /-- every stored child carries its key as its `.name` -/
 theorem named_after_key {n : Node} (h : MapInv n) (hf : FieldsNamed n.sch) : NamedAfterKey n := by
   intro c hc
-  obtain ⟨_, hmem, hkey⟩ := h.kids c hc
-  obtain ⟨nm, hnm⟩ := hf c.sch hmem
+  obtain ⟨_, hmem, hkey, _, hnov⟩ := h.kids c hc
+  obtain ⟨hns, nm, hnm⟩ := hf c.sch hmem
   rw [hkey]
-  simp [Schema.key, Schema.name, hnm]
+  have hk : ¬ c.kind = .slot := hns
+  simp [Node.name, hk, hnov, Schema.key, Schema.name, hnm]
 
 /-- **undeclared_rejected.**  Item assignment, deletion, pop, setdefault and get naming a key
     the schema does not declare raise TypeError/KeyError and leave the mapping exactly as it was. -/
@@ -852,7 +856,7 @@ theorem undeclared_rejected {n : Node} (h : MapInv n) (k : Str) (hund : fieldFor
     | none => rfl
     | some c =>
       obtain ⟨hcm, hck⟩ := findKid_some hc
-      obtain ⟨_, hmem, hkey⟩ := h.kids c hcm
+      obtain ⟨_, hmem, hkey, _, _⟩ := h.kids c hcm
       exact absurd (List.mem_map.mpr ⟨c.sch, hmem, by rw [← hkey, hck]⟩) (fieldFor_none hund)
   rcases hop with ⟨a, rfl⟩ | rfl | rfl | ⟨d, rfl⟩ | rfl
   · show (mapSetItem n k a next).node = n ∧ _
@@ -894,6 +898,52 @@ theorem C10_full_fails : ¬ C10_Full := by
   simp only [List.mem_singleton] at hm
   have : ((exRenamed.withParent (some 1)).withKey ['a']).sch.info.cid = exA.info.cid := by rw [hm]
   exact absurd this (by decide)
+
+/-! ### instance-level overrides (finding KF-C10-b)
+
+`SparseDict.__delitem__` / `pop` read `self[key].optional` — the *member*, not the field schema.
+An element of exactly the field class built with `optional=True` (`A('v', optional=True)`), once
+adopted under a required key, makes that key deletable: the "always its required ones" clause
+fails although the argument is of the declared class.  `ArgExact` therefore also demands that
+the argument carries no instance-level `optional=` / `name=`; with the class condition alone the
+history theorem is false: -/
+
+def ArgClassOnly (s : Schema) (k : Str) : Arg → Prop
+  | .elem e => ∀ f, fieldFor s.subs k = some f → isInstance e f = true → e.sch = f
+  | .plain _ => True
+
+def OpClassOnly (s : Schema) : MapOp → Prop
+  | .setitem k a => ArgClassOnly s k a
+  | .updateArgs kvs => ∀ p ∈ kvs, ArgClassOnly s p.1 p.2
+  | _ => True
+
+def C10_RunClassOnly : Prop :=
+  ∀ (ops : List MapOp) (n : Node) (next : Nat), MapInv n → MapKind n → FieldsNodup n →
+    (∀ op ∈ ops, OpClassOnly n.sch op) → MapInv (run ⟨n, next⟩ ops).node
+
+def exSR : Schema := .mk { cid := 1, kind := .sparse, minreq := true } .none [exA]
+/-- `S = SparseDict.of(A).using(minimum_fields='required'); s = S()` -/
+def exSparseReq : Node := (blank exSR none [] 1).1
+/-- `A('v', optional=True)`: `type(e) is A` -/
+def exOptInst : Node := .mk { id := 7, parent := none, val := .str ['v'], u := ['v'], optOv := some true } exA []
+
+/-- `s['a'] = A('v', optional=True); del s['a']` leaves the required key missing -/
+theorem C10_runClassOnly_fails : ¬ C10_RunClassOnly := by
+  intro hfull
+  have h := hfull [.setitem ['a'] (.elem exOptInst), .delitem ['a']] exSparseReq 10
+    (mapinv_init exSR (Or.inr rfl) none [] 1) (Or.inr rfl) (by unfold FieldsNodup; decide)
+    (by
+      intro op hop
+      simp only [List.mem_cons, List.not_mem_nil, or_false] at hop
+      rcases hop with rfl | rfl
+      · intro f hf _
+        show exOptInst.sch = f
+        have : fieldFor exSparseReq.sch.subs ['a'] = some exA := rfl
+        rw [this] at hf
+        cases hf; rfl
+      · trivial)
+  have hk := h.required (by decide) (by decide) exA (by show exA ∈ [exA]; simp) rfl
+  exact absurd hk (by decide)
 
 /-! ### non-vacuity -/
 
